@@ -75,6 +75,44 @@ def poly_powmod(base, e, mod, p):
     return result
 
 
+def poly_roots_fp(coeffs, p, rng=None):
+    """All roots in GF(p) of the polynomial with the given coefficients (low degree first); Cantor-Zassenhaus
+    on gcd(x^p - x, f)."""
+    rng = rng or random.Random(0xC0FFEE)
+    f = _trim([c % p for c in coeffs])
+    if len(f) <= 1:
+        return []
+    # make monic
+    inv = pow(f[-1], -1, p)
+    f = [c * inv % p for c in f]
+    xp = poly_powmod([0, 1], p, f, p)
+    g = poly_gcd(poly_sub(xp, [0, 1], p), f, p)
+    roots = []
+
+    def split(h):
+        h = _trim(h)
+        d = len(h) - 1
+        if d <= 0:
+            return
+        if d == 1:
+            roots.append((-h[0] * pow(h[1], -1, p)) % p)
+            return
+        while True:
+            a = rng.randrange(p)
+            t = poly_powmod([a, 1], (p - 1) // 2, h, p)
+            t = poly_sub(t, [1], p)
+            w = poly_gcd(t, h, p)
+            dw = len(_trim(w)) - 1
+            if 0 < dw < d:
+                split(w)
+                q, r = poly_divmod(h, w, p)
+                split(q)
+                return
+    if len(_trim(g)) - 1 >= 1:
+        split(g)
+    return sorted(set(roots))
+
+
 def _prime_factors(n):
     out, d = [], 2
     while d * d <= n:
